@@ -86,10 +86,10 @@ CHECKS["C17"] = {
 }
 
 CHECKS["C16"] = {
-    "tests": [T("TestC16Emitter", 1500, 20000), T("TestC16Store", 120, 1500), T("TestC16Strict", 120, 1500)],
+    "tests": [T("TestC16Emitter", 1500, 20000), T("TestC16Store", 120, 1500), T("TestC16Strict", 120, 1500), T("TestC16GatedIndex", 120, 1500)],
     "level": "exploration",
     "technique": "property-based testing (rapid) with a harness-owned schedule point in the legacy emitter's drainer; sequence oracle (received == emitted, in order, once) and in-handler state queries on store events",
-    "rule": "TestC16Emitter: rapid draws up to 14 steps of emit m (1-4 or 14-40 events) / read k / hold (park the drainer at the hook between taking an event off the overflow queue and sending it) / release on a bare events.EventEmitter; at the end everything is released and the subscriber must have received exactly 0..N-1 in order; non-trivial = the overflow queue was in use (>17 undelivered events) AND the drainer was held at least once. TestC16Store: rapid draws a store (eventlog/keyvalue), 0-2 other writers, up to 10 steps of local write runs (1-4 or 15-30), remote writes and merges; an event-bus subscriber and a legacy-channel subscriber that stalls for a drawn number of steps and then reads slowly both query the store from inside their handler (OpLog().Get(hash), listing contains it / Get(key) is the announced value or a later one); oracle: exactly one write event per successful write in write order, one replicated event per merged batch (hook count), every replicated entry announced, state never behind the event, and the legacy subscriber sees the same sequence as the bus; non-trivial = >16 writes and at least one replication. TestC16Strict (same generator): the subscriber's channel has NO buffer and the harness refuses to receive until the view reflects the write / the merged batch (batches are reported by the replicator hook); the bus delivers synchronously, so a store that emits before updating its state parks inside Emit with the state lacking the entry - a state-based, non-racy verdict; then the event must arrive and carry exactly that entry / batch; non-trivial = at least one local write and one merged batch; distinct = SHA-1 of the case JSON",
+    "rule": "TestC16Emitter: rapid draws up to 14 steps of emit m (1-4 or 14-40 events) / read k / hold (park the drainer at the hook between taking an event off the overflow queue and sending it) / release on a bare events.EventEmitter; at the end everything is released and the subscriber must have received exactly 0..N-1 in order; non-trivial = the overflow queue was in use (>17 undelivered events) AND the drainer was held at least once. TestC16Store: rapid draws a store (eventlog/keyvalue), 0-2 other writers, up to 10 steps of local write runs (1-4 or 15-30), remote writes and merges; an event-bus subscriber and a legacy-channel subscriber that stalls for a drawn number of steps and then reads slowly both query the store from inside their handler (OpLog().Get(hash), listing contains it / Get(key) is the announced value or a later one); oracle: exactly one write event per successful write in write order, one replicated event per merged batch (hook count), every replicated entry announced, state never behind the event, and the legacy subscriber sees the same sequence as the bus; non-trivial = >16 writes and at least one replication. TestC16Strict (same generator): the subscriber's channel has NO buffer and the harness refuses to receive until the view reflects the write / the merged batch (batches are reported by the replicator hook); the bus delivers synchronously, so a store that emits before updating its state parks inside Emit with the state lacking the entry - a state-based, non-racy verdict; then the event must arrive and carry exactly that entry / batch; non-trivial = at least one local write and one merged batch. TestC16GatedIndex: a harness-owned store type (plain BaseStore with an index whose UpdateIndex can be held) keeps one writer inside the index update while 0-4 further writers and optionally a replication run; no write/replicated event may be received for an entry the index does not hold, every acknowledged write reaches the index, one write event per write; non-trivial = another writer or a merge overlapped the held update; distinct = SHA-1 of the case JSON",
     "level_text": "Generated schedules/histories; the one harness-owned interleaving point is the drainer hook. Other interleavings are reached by chance only.",
     "level_note": "Loss is judged after a 20 s wait with everything released (a wait bound, the only place a clock ends a positive claim without a state-based rest detector: the bare emitter has no other observable). A failure must reproduce in the driver's re-execution to be reported.",
     "design_ref": "5/C16",
@@ -122,7 +122,7 @@ CHECKS["C04"] = {
     "tests": [T("TestC04", 300, 4000)],
     "level": "exploration",
     "technique": "property-based testing (rapid): enumerated single-field mutations of valid entries (and sibling-database entries) x delivery form x route, with an independent badness oracle (recomputed content address, signature verification, log id) and a canary to prove the route processed the input",
-    "rule": "rapid draws a store type, 1-2 authors with a short honest history, whether the victim already holds it, a base entry (an honest entry or a fresh valid one nobody holds), one of 19 field mutations (payload, clock time/id, next add/drop, refs, key other/garbage, signature flip/empty, five identity fields, log id, v, claimed hash, sibling-database entry), the delivery form (A head with the claimed hash kept, B head with the hash recomputed and the block stored on the attacker's node, C stored block reachable through next from a valid head signed by a colluding authorised writer) and the route (manual Sync, injected topic message, injected direct-channel payload). bad(e) := claimed address != address of the content, or signature does not verify against key and content, or log id != this database - computed with the dependency's encoder and verifier. After an honest canary entry sent by the same route is visible and the replica rests: if bad, neither address is in the log, Values() or heads, no honest address holds foreign content, everything held before is still there, Values() == (time,id) order and the view == LWW replay of the honest entries held. Mutations that leave the entry valid (identity block with the hash recomputed: not covered by the signature) are counted, not asserted (C03's domain). non-trivial = bad and the victim actually fetched blocks for it; distinct = SHA-1 of the case JSON",
+    "rule": "rapid draws a store type, 1-2 authors with a short honest history, whether the victim already holds it, a base entry (an honest entry or a fresh valid one nobody holds), one of 19 field mutations (payload, clock time/id, next add/drop, refs, key other/garbage, signature flip/empty, five identity fields, log id, v, claimed hash, sibling-database entry), the delivery form (A head with the claimed hash kept, B head with the hash recomputed and the block stored on the attacker's node, C stored block reachable through next from a valid head signed by a colluding authorised writer, D reachable through refs of such a head, E reachable through next of a carrier head that passes the announcement pre-check but is refused at join) and the route (manual Sync, injected topic message, injected direct-channel payload). bad(e) := claimed address != address of the content, or signature does not verify against key and content, or log id != this database - computed with the dependency's encoder and verifier. After an honest canary entry sent by the same route is visible and the replica rests: if bad, neither address is in the log, Values() or heads, no honest address holds foreign content, everything held before is still there, Values() == (time,id) order and the view == LWW replay of the honest entries held. Mutations that leave the entry valid (identity block with the hash recomputed: not covered by the signature) are counted, not asserted (C03's domain). non-trivial = bad and the victim actually fetched blocks for it; distinct = SHA-1 of the case JSON",
     "level_text": "Generated cases with every field/form combination hit in the quick tier (see labels); no exhaustiveness over histories.",
     "level_note": "Links to blocks that nobody holds are not generated: an unfetchable link stalls any replicator until the block appears, honest author or not; the properties assume reachable blocks. Trusted: go-ipfs-log encoder and Verify for the badness oracle.",
     "design_ref": "5/C04",
@@ -148,5 +148,16 @@ CHECKS["C03"] = {
     "level_text": "Generated cases; no exhaustiveness claimed.",
     "level_note": "Access controller type ipfs (the default); the simple controller is only reachable through options that bypass the manifest and is not generated. Trusted: the dependency's signature verification.",
     "design_ref": "5/C03",
+    "assumptions": TRUST,
+}
+
+CHECKS["C11"] = {
+    "tests": [T("TestC11Grid", 1, 1, qshards=4, tshards=4), T("TestC11", 120, 2500)],
+    "level": "fault_enumeration",
+    "technique": "fault enumeration: cancellation of a replication request at every instrumented point (hooks in the replicator) x arrival count, enumerated for two fixed histories and drawn (rapid) for generated histories and request sequences; wedge oracle against the set reachable from the final heads",
+    "rule": "a victim replica (replication concurrency 1 or 2, set through a wrapping store constructor) receives 1-4 Sync requests over drawn subsets of honest entries, each with its own context that is cancelled at one of: never, before the call, the n-th arrival (n=1..4) at replicator.slot.before / slot.dequeued / fetch.done / entry.beforeDone / loadend.emit / load.registered, or while a parked block fetch is held by the harness; then an uncancelled Sync of the authors' final heads (optionally after a newer write). TestC11Grid enumerates every (point, n<=3) x concurrency {1,2} x {one head, three heads} for two fixed histories (192 cases); TestC11 draws histories (1-3 authors, up to 10 steps), request sequences and points. Oracle: the victim ends up holding exactly the entries reachable from the final heads, in model order (reported only when the system is at rest by hook counters and an entry is still missing, or when load calls stay open with nothing left to fetch). non-trivial = a cancellation hit a request with work queued or in flight; distinct = SHA-1 of the case JSON",
+    "level_text": "Every instrumented cancellation point is enumerated for the fixed histories; generated histories sample the space. Cancellation between uninstrumented instructions is reached only by chance.",
+    "level_note": "Trusted: x/sync semaphore, go-ipfs-log fetcher. 'Exactly as if the aborted request had never been made' is judged on the final entry set, order and view.",
+    "design_ref": "5/C11",
     "assumptions": TRUST,
 }
